@@ -78,183 +78,213 @@ func runC09(c *Ctx) {
 	info := p.TypesInfo
 
 	// R1 ------------------------------------------------------------
-	var nodesWriter *ast.FuncDecl
-	var indentParam types.Object
-	for _, fd := range allFuncDecls(p) {
-		if fd.Recv != nil {
+	// every function of the formatter that takes the node list and the indent mode (the list writer and any helper it
+	// delegates the decision to): a line-break constant becomes the trailing space — by assignment to a TrailingSpace
+	// variable or by being returned — only under the indent mode
+	nWriters, nBreaks := 0, 0
+	for _, nodesWriter := range allFuncDecls(p) {
+		if nodesWriter.Recv != nil || nodesWriter.Body == nil {
 			continue
 		}
-		var ip types.Object
+		var indentParam types.Object
 		hasNodes := false
-		for _, prm := range fd.Type.Params.List {
+		for _, prm := range nodesWriter.Type.Params.List {
 			t := info.TypeOf(prm.Type)
 			if t == nil {
 				continue
 			}
 			if t.String() == "bool" && len(prm.Names) == 1 {
-				ip = info.Defs[prm.Names[0]]
+				indentParam = info.Defs[prm.Names[0]]
 			}
 			if strings.HasSuffix(t.String(), "[]"+pkgParser+".Node") || t.String() == "[]"+pkgParser+".Node" {
 				hasNodes = true
 			}
 		}
-		if ip != nil && hasNodes {
-			nodesWriter, indentParam = fd, ip
+		if indentParam == nil || !hasNodes {
+			continue
 		}
-	}
-	if nodesWriter == nil {
-		c.viol("C09.R1", "anchor-lost:node-list-writer", "", "no function (…, []Node, indent bool) found in the formatter")
-	} else {
+		nWriters++
 		key := funcKey(p, nodesWriter)
-		// the variable written after each node
-		var written types.Object
-		formatterWrites(info, nodesWriter.Body, func(call *ast.CallExpr, text []ast.Expr) {
-			for _, t := range text {
-				ast.Inspect(t, func(n ast.Node) bool {
-					if id, ok := n.(*ast.Ident); ok {
-						if v, ok := info.ObjectOf(id).(*types.Var); ok && strings.HasSuffix(v.Type().String(), "TrailingSpace") {
-							written = v
-						}
-					}
-					return true
-				})
+		isTS := func(e ast.Expr) bool {
+			t := info.TypeOf(e)
+			return t != nil && strings.HasSuffix(t.String(), "TrailingSpace")
+		}
+		n := 0
+		var stack []ast.Node
+		ast.Inspect(nodesWriter.Body, func(x ast.Node) bool {
+			if x == nil {
+				stack = stack[:len(stack)-1]
+				return true
 			}
-		})
-		if written == nil {
-			c.undec("C09.R1", key+"|trailing-space-variable", c.pos(nodesWriter.Pos()), "the trailing-space value written after each node was not found")
-		} else {
-			n := 0
-			var stack []ast.Node
-			ast.Inspect(nodesWriter.Body, func(x ast.Node) bool {
-				if x == nil {
-					stack = stack[:len(stack)-1]
+			stack = append(stack, x)
+			var valExpr ast.Expr
+			kind := ""
+			switch st := x.(type) {
+			case *ast.AssignStmt:
+				if len(st.Lhs) != 1 || len(st.Rhs) != 1 {
 					return true
 				}
-				stack = append(stack, x)
-				as, ok := x.(*ast.AssignStmt)
-				if !ok || len(as.Lhs) != 1 || len(as.Rhs) != 1 {
+				id, ok := st.Lhs[0].(*ast.Ident)
+				if !ok || !isTS(id) {
 					return true
 				}
-				id, ok := as.Lhs[0].(*ast.Ident)
-				if !ok || info.ObjectOf(id) != types.Object(written) {
-					return true
-				}
-				if !hasNL(info, as.Rhs[0]) {
-					return true // not a line-break constant (e.g. carried over from the source node)
-				}
-				n++
-				// control-dependent on indent: an enclosing if whose condition has `indent` as a conjunct
-				guarded := false
-				for i := len(stack) - 2; i >= 0; i-- {
-					if is, ok := stack[i].(*ast.IfStmt); ok && is.Body.Pos() <= as.Pos() && as.End() <= is.Body.End() {
-						if conjunctHas(info, is.Cond, indentParam) {
-							guarded = true
-						}
-					}
-				}
-				kind := "assignment"
-				if as.Tok == token.DEFINE {
+				valExpr = st.Rhs[0]
+				kind = "assignment"
+				if st.Tok == token.DEFINE {
 					kind = "default"
 				}
-				c.check(guarded, "C09.R1", fmt.Sprintf("%s|line-break-%s#%d", key, kind, n), c.pos(as.Pos()), "only under the indent mode",
-					fmt.Sprintf("%s: the trailing space written after a node is set to a line break (%s at %s) without being conditional on the indent mode: in a single-line element (`<div>@foo()</div>`) the formatter adds a line break, the next parse sees an indented element and the second formatting differs", nodesWriter.Name.Name, kind, c.pos(as.Pos())))
+			case *ast.ReturnStmt:
+				if len(st.Results) != 1 || !isTS(st.Results[0]) {
+					return true
+				}
+				valExpr = st.Results[0]
+				kind = "return"
+			case *ast.ValueSpec:
+				if len(st.Names) != 1 || len(st.Values) != 1 || !isTS(st.Names[0]) {
+					return true
+				}
+				valExpr = st.Values[0]
+				kind = "default"
+			default:
 				return true
-			})
-			if n == 0 {
-				c.viol("C09.R1", key+"|line-break-assignments", c.pos(nodesWriter.Pos()), "no line-break constant is ever assigned to the trailing space: indented layouts would never break lines")
 			}
-		}
+			if !hasNL(info, valExpr) {
+				return true // not a line-break constant (e.g. carried over from the source node)
+			}
+			n++
+			nBreaks++
+			guarded := false
+			for i := len(stack) - 2; i >= 0; i-- {
+				if is, ok := stack[i].(*ast.IfStmt); ok && is.Body.Pos() <= x.Pos() && x.End() <= is.Body.End() {
+					if conjunctHas(info, is.Cond, indentParam) {
+						guarded = true
+					}
+				}
+			}
+			// the early-return form: an earlier `if !indent { return … }` at the top level of the function
+			for _, top := range nodesWriter.Body.List {
+				if top.End() > x.Pos() {
+					break
+				}
+				if is, ok := top.(*ast.IfStmt); ok && len(is.Body.List) > 0 {
+					if _, isRet := is.Body.List[len(is.Body.List)-1].(*ast.ReturnStmt); isRet {
+						if ue, ok := ast.Unparen(is.Cond).(*ast.UnaryExpr); ok && ue.Op == token.NOT {
+							if id, ok := ast.Unparen(ue.X).(*ast.Ident); ok && info.ObjectOf(id) == indentParam {
+								guarded = true
+							}
+						}
+					}
+				}
+			}
+			c.check(guarded, "C09.R1", fmt.Sprintf("%s|line-break-%s#%d", key, kind, n), c.pos(x.Pos()), "only under the indent mode",
+				fmt.Sprintf("%s: the trailing space written after a node is set to a line break (%s at %s) without being conditional on the indent mode: in a single-line element (`<p>a{ x }b</p>`) every run of `templ fmt` then adds line breaks that the next run indents — the output is not a fixed point", nodesWriter.Name.Name, kind, c.pos(x.Pos())))
+			return true
+		})
+	}
+	if nWriters == 0 {
+		c.viol("C09.R1", "anchor-lost:node-list-writer", "", "no function (…, []Node, indent bool) found in the formatter")
+	} else if nBreaks == 0 {
+		c.viol("C09.R1", pkgParser+"|line-break-assignments", "", "no line-break constant ever becomes the trailing space: indented layouts would never get their line breaks")
 	}
 
 	// R2 ------------------------------------------------------------
 	flags := []struct{ typ, field string }{{"Element", "IndentChildren"}, {"Element", "IndentAttrs"}, {"GoCode", "Multiline"}}
+	// Over the paths of each Write method (any arrangement of if / switch / separator variables): a path on which every
+	// layout flag it tests is false writes no line break (the single-line form stays on one line), and for each flag
+	// there is a path that took it as true and writes one (the multi-line form reproduces itself).
+	byType := map[string][]string{}
 	for _, fl := range flags {
-		fd := findFunc(p, fl.typ, "Write")
+		byType[fl.typ] = append(byType[fl.typ], fl.field)
+	}
+	for _, typ := range []string{"Element", "GoCode"} {
+		fd := findFunc(p, typ, "Write")
 		if fd == nil {
-			c.viol("C09.R2", fmt.Sprintf("anchor-lost:%s.Write", fl.typ), "", fl.typ+".Write not found")
+			c.viol("C09.R2", fmt.Sprintf("anchor-lost:%s.Write", typ), "", typ+".Write not found")
 			continue
 		}
-		nbranch := 0
-		ast.Inspect(fd.Body, func(x ast.Node) bool {
-			is, ok := x.(*ast.IfStmt)
-			if !ok {
-				return true
-			}
-			cond := ast.Unparen(is.Cond)
-			neg := false
-			if ue, ok := cond.(*ast.UnaryExpr); ok && ue.Op == token.NOT {
-				cond, neg = ue.X, true
-			}
-			se, ok := cond.(*ast.SelectorExpr)
-			if !ok || se.Sel.Name != fl.field {
-				return true
-			}
-			nbranch++
-			trueBr, falseBr := ast.Node(is.Body), ast.Node(nil)
-			if is.Else != nil {
-				falseBr = is.Else
-			}
-			if neg {
-				trueBr, falseBr = falseBr, ast.Node(is.Body)
-			}
-			// when there is no else and the body returns, the false branch is the rest of the function after the if
-			var rest []ast.Stmt
-			if (neg && trueBr == nil || !neg && falseBr == nil) && blockEndsInReturn(is.Body) {
-				// the statements that follow the if in its own block
-				ast.Inspect(fd.Body, func(y ast.Node) bool {
-					if b, ok := y.(*ast.BlockStmt); ok {
-						for i, st := range b.List {
-							if st == ast.Stmt(is) {
-								rest = b.List[i+1:]
-							}
-						}
+		den := &denum{info: info, pkg: p.Types, inits: map[types.Object]ast.Expr{}, limit: 50000, loopsOnce: true}
+		den.finish(den.run(fd.Body.List, []dstate{{env: map[types.Object]ast.Expr{}}}))
+		if den.undecided != "" {
+			c.undec("C09.R2", funcKey(p, fd)+"|flags", c.pos(fd.Pos()), typ+".Write contains "+den.undecided)
+			continue
+		}
+		isFlag := func(e ast.Expr) string {
+			if se, ok := ast.Unparen(e).(*ast.SelectorExpr); ok {
+				for _, f := range byType[typ] {
+					if se.Sel.Name == f {
+						return f
 					}
-					return true
+				}
+			}
+			return ""
+		}
+		writesNL := func(pth dpath) (bool, string) {
+			found, where := false, ""
+			var nodes []ast.Node
+			for _, st := range pth.Trace {
+				nodes = append(nodes, st)
+			}
+			if pth.Ret != nil {
+				nodes = append(nodes, pth.Ret)
+			}
+			for _, nd := range nodes {
+				formatterWrites(info, nd, func(call *ast.CallExpr, text []ast.Expr) {
+					for _, t := range text {
+						if hasNL(info, t) {
+							found, where = true, c.pos(call.Pos())
+						}
+						// a separator held in a variable: what the variable is bound to on this path
+						ast.Inspect(t, func(m ast.Node) bool {
+							if id, ok := m.(*ast.Ident); ok {
+								if b, bound := pth.Env[info.ObjectOf(id)]; bound && hasNL(info, b) {
+									found, where = true, c.pos(call.Pos())
+								}
+							}
+							return true
+						})
+					}
 				})
 			}
-			nlIn := func(n ast.Node, stmts []ast.Stmt) (bool, string) {
-				found, where := false, ""
-				visit := func(root ast.Node) {
-					formatterWrites(info, root, func(call *ast.CallExpr, text []ast.Expr) {
-						for _, t := range text {
-							if hasNL(info, t) {
-								found, where = true, c.pos(call.Pos())
-							}
-						}
-					})
-				}
-				if n != nil {
-					visit(n)
-				}
-				for _, st := range stmts {
-					visit(st)
-				}
-				return found, where
-			}
-			key := fmt.Sprintf("%s|flag:%s#%d", funcKey(p, fd), fl.field, nbranch)
-			if neg {
-				// `if !flag { single-line form; return }` then multi-line form
-				fnl, where := nlIn(is.Body, nil)
-				c.check(!fnl, "C09.R2", key+"|false-branch-adds-no-line-break", c.pos(is.Pos()), "the single-line form writes no line break",
-					fmt.Sprintf("%s.Write writes a line break (%s) on the %s=false branch: the re-parsed output has the flag set and is formatted differently", fl.typ, where, fl.field))
-				tnl, _ := nlIn(trueBr, rest)
-				c.check(tnl, "C09.R2", key+"|true-branch-adds-line-break", c.pos(is.Pos()), "the multi-line form writes a line break",
-					fmt.Sprintf("%s.Write writes no line break on the %s=true branch: the re-parsed output has the flag cleared", fl.typ, fl.field))
-			} else {
-				tnl, _ := nlIn(trueBr, nil)
-				c.check(tnl, "C09.R2", key+"|true-branch-adds-line-break", c.pos(is.Pos()), "the multi-line form writes a line break",
-					fmt.Sprintf("%s.Write writes no line break on the %s=true branch: the re-parsed output has the flag cleared", fl.typ, fl.field))
-				if falseBr != nil || len(rest) > 0 {
-					fnl, where := nlIn(falseBr, rest)
-					c.check(!fnl, "C09.R2", key+"|false-branch-adds-no-line-break", c.pos(is.Pos()), "the single-line form writes no line break",
-						fmt.Sprintf("%s.Write writes a line break (%s) on the %s=false branch", fl.typ, where, fl.field))
-				}
-			}
-			return true
-		})
-		if nbranch == 0 {
-			c.viol("C09.R2", fmt.Sprintf("%s|flag:%s", funcKey(p, fd), fl.field), c.pos(fd.Pos()), fl.typ+".Write no longer branches on "+fl.field+": the layout chosen by the author cannot be reproduced")
+			return found, where
 		}
+		tested := map[string]bool{}
+		trueNL := map[string]bool{}
+		badSingle := ""
+		for _, pth := range den.paths {
+			vals := map[string]bool{}
+			for _, pc := range pth.Conds {
+				if f := isFlag(pc.Expr); f != "" {
+					vals[f] = pc.Val
+					tested[f] = true
+				}
+			}
+			nl, where := writesNL(pth)
+			allFalse := true
+			for _, v := range vals {
+				if v {
+					allFalse = false
+				}
+			}
+			for f, v := range vals {
+				if v && nl {
+					trueNL[f] = true
+				}
+			}
+			if allFalse && len(vals) == len(byType[typ]) && nl {
+				badSingle = where
+			}
+		}
+		for i, f := range byType[typ] {
+			key := fmt.Sprintf("%s|flag:%s#%d", funcKey(p, fd), f, i+1)
+			if !tested[f] {
+				c.viol("C09.R2", fmt.Sprintf("%s|flag:%s", funcKey(p, fd), f), c.pos(fd.Pos()), typ+".Write no longer branches on "+f+": the layout chosen by the author cannot be reproduced")
+				continue
+			}
+			c.check(trueNL[f], "C09.R2", key+"|true-branch-adds-line-break", c.pos(fd.Pos()), "a path with "+f+"=true writes a line break",
+				fmt.Sprintf("%s.Write writes no line break on any path with %s=true: the re-parsed output has the flag cleared", typ, f))
+		}
+		c.check(badSingle == "", "C09.R2", funcKey(p, fd)+"|false-branch-adds-no-line-break", c.pos(fd.Pos()), "with every layout flag false no line break is written",
+			fmt.Sprintf("%s.Write writes a line break (%s) on a path where every layout flag (%s) is false: the re-parsed output has a flag set and is formatted differently", typ, badSingle, strings.Join(byType[typ], ", ")))
 	}
 	// the parser sets each flag from a line comparison
 	for _, fl := range flags {
